@@ -5,6 +5,7 @@
 # "which checks catch which changes" in DESIGN.md.
 cd /verif
 out=${1:-/tmp/matrix.out}
+pat=${2:-C*}   # optional glob over seed directory names, e.g. "*-[GH]"
 all=$(ls zlv/c[0-9][0-9].go | sed 's|zlv/c|C|; s|\.go||' | tr '\n' ' ')
-ls -d seeded/C* | xargs -P 6 -I{} bash -c 'r=$(tools/runpatch.sh {}/patch.diff '"$all"' 2>&1 | grep -o "^KILLED C[0-9]*" | cut -d" " -f2 | tr "\n" " "); echo "$(basename {}) :: ${r:-none}"' | sort > "$out"
+ls -d seeded/$pat | xargs -P 6 -I{} bash -c 'r=$(tools/runpatch.sh {}/patch.diff '"$all"' 2>&1 | grep -o "^KILLED C[0-9]*" | cut -d" " -f2 | tr "\n" " "); echo "$(basename {}) :: ${r:-none}"' | sort > "$out"
 cat "$out"
